@@ -40,12 +40,18 @@ int node_of_fd(int fd) {
   return n;
 }
 bool fnmatch1(const char* p, const char* s) {
-  // shell wildcard match of one path component: '*' any run, '?' any one char (no brackets/braces in the modelled configs)
-  if (*p == 0) return *s == 0;
-  if (*p == '*') { for (const char* t = s;; t++) { if (fnmatch1(p + 1, t)) return true; if (*t == 0) return false; } }
-  if (*s == 0) return false;
-  if (*p == '?' || *p == *s) return fnmatch1(p + 1, s + 1);
-  return false;
+  // shell wildcard match of one path component: '*' any run, '?' any one char (no brackets/braces in the modelled configs).
+  // Iterative single-star-backtracking algorithm (no recursion: bounded symbolic execution friendly).
+  int pi = 0, si = 0, star = -1, mark = 0;
+  for (int guard = 0; guard < 64; guard++) {
+    if (s[si] == 0) break;
+    if (p[pi] == '?' || (p[pi] != '*' && p[pi] != 0 && p[pi] == s[si])) { pi++; si++; }
+    else if (p[pi] == '*') { star = pi; mark = si; pi++; }
+    else if (star >= 0) { pi = star + 1; mark++; si = mark; }
+    else return false;
+  }
+  while (p[pi] == '*') pi++;
+  return p[pi] == 0 && s[si] == 0;
 }
 void remove_node(int n) { nodes[n].exists = false; for (int i = 0; i < nnodes; i++) if (nodes[i].parent == n && nodes[i].exists) remove_node(i); }
 void recreate_node(int n) { if (nodes[n].parent >= 0 && !nodes[nodes[n].parent].exists) return; nodes[n].exists = true; nodes[n].gen++; if (nodes[n].gen > 7) vf_bound("incarnations"); nodes[n].npids = 0; nodes[n].x_has_ooms[0] = nodes[n].x_has_ooms[1] = nodes[n].x_has_kill[0] = nodes[n].x_has_kill[1] = false; nodes[n].x_uuid[0] = nodes[n].x_uuid[1] = 0; }
